@@ -13,6 +13,7 @@ import OsacaVerif.Driver.C09
 import OsacaVerif.Driver.C10
 import OsacaVerif.Driver.C07
 import OsacaVerif.Driver.Roles
+import OsacaVerif.Driver.Pipeline
 open OsacaVerif OsacaVerif.Proto
 
 /-- one handler per property module; the first that recognises the op answers -/
@@ -30,7 +31,8 @@ def handlers : List (Req → Option String) := [
   Driver.C09.handle,
   Driver.C10.handle,
   Driver.C07.handle,
-  Driver.Roles.handle
+  Driver.Roles.handle,
+  Driver.Pipeline.handle
 ]
 
 def dispatch (r : Req) : String :=
